@@ -41,6 +41,8 @@ def classify(v):
 def rand_string(rng):
     mode = rng.random()
     L = rng.choice([0, 1, 1, 2, 3, 5, 8, 13, 21, 34, 60]) if rng.random() < 0.5 else rng.randint(0, 60)
+    if rng.random() < 0.01:
+        L = rng.choice([255, 256, 257, 1023, 1024, 1025, 2000, 4097, rng.randint(300, 6000)])   # far beyond any cap
     if mode < 0.5:
         alpha = ASCII
     elif mode < 0.7:
